@@ -473,6 +473,28 @@ def gen_pair(rng, quirks=False, force=None):
             u_d.append(mk_field(yn, B("int")))
         feats.add("name:shared_across_jobs:%s" % ("tag_first" if tagged_first else "tag_last"))
 
+    # appendOrReplace: ONE field name at THREE embedding depths (1, 2, 3), the three chains in random order, every embedding
+    # by value or by pointer at random: the shallowest declaration wins whatever the order, and the nil guards / allocations
+    # are those of ITS path
+    if len(names) >= 1 and rng.random() < 0.3:
+        side = rng.choice(["src", "src", "dst"])
+        pfx, decls, root, oroot = ("SK", src_decls, sroot, droot) if side == "src" else ("DK", dst_decls, droot, sroot)
+        xn = names.pop()[0]
+        chains = []
+        for depth in (1, 2, 3):
+            nm = ["%s%d%s" % (pfx, depth, "abc"[k]) for k in range(depth)]
+            ptrs = [rng.random() < 0.5 for _ in range(depth)]
+            # innermost struct holds the field
+            for k in reversed(range(depth)):
+                fl = [mk_field(xn, B("int"))] if k == depth - 1 else \
+                     [mk_field(nm[k + 1], P(N(side, nm[k + 1])) if ptrs[k + 1] else N(side, nm[k + 1]), emb=True)]
+                decls.append({"name": nm[k], "kind": "struct", "fields": fl})
+            chains.append(mk_field(nm[0], P(N(side, nm[0])) if ptrs[0] else N(side, nm[0]), emb=True))
+        rng.shuffle(chains)
+        root.extend(chains)
+        oroot.append(mk_field(xn, B("int")))
+        feats.add("embed3:%s:same_name_at_depth_1_2_3" % side)
+
     rs = "Order"
     rd = rs if rng.random() < 0.7 else "OrderDTO"
     if mapper:
@@ -527,6 +549,33 @@ def gen_pair(rng, quirks=False, force=None):
             if o:
                 root_job["manual_from"] = o
                 feats.add("manual:from")
+    # makeSubMap records IsPtr of BOTH fields in each of its two branches; when one direction of a nested pair is taken by a
+    # manual method, only the other branch runs: a pointer (or slice of pointers) read side against a value written side then
+    # needs the nil guard from that single branch.  ToX-guard side: *S -> D with fromX assigning the source field;
+    # FromX-guard side: S <- *D with toX assigning the destination field.
+    if flags["way"] == "both" and rng.random() < 0.5:
+        def ptr_named(t, pkg):
+            return (t[0] == "ptr" and t[1][0] == "named" and t[1][1] == pkg) or \
+                   (t[0] == "slice" and t[1][0] == "ptr" and t[1][1][0] == "named" and t[1][1][1] == pkg)
+
+        def val_named(t, pkg):
+            return (t[0] == "named" and t[1] == pkg) or (t[0] == "slice" and t[1][0] == "named" and t[1][1] == pkg)
+        taken = {(repr(f["param"]), repr(f["result"])) for f in (funcs or [])}
+        dn = {f["name"]: f for f in droot if not f["emb"]}
+        for f in [f for f in sroot if not f["emb"] and f["tag"] in ("",)]:
+            g = dn.get(f["name"])
+            if not g or (repr(f["ty"]), repr(g["ty"])) in taken or (repr(g["ty"]), repr(f["ty"])) in taken:
+                continue
+            if ptr_named(f["ty"], "src") and val_named(g["ty"], "dst") and (f["ty"][0] == g["ty"][0] or f["ty"][0] == "ptr"):
+                cur = root_job["manual_from"] or []
+                if f["name"] not in [o[0] for o in cur]:
+                    root_job["manual_from"] = cur + [(f["name"], None, f["ty"])]
+                    feats.add("manual:from_claims_ptr_sub")
+            elif val_named(f["ty"], "src") and ptr_named(g["ty"], "dst") and (f["ty"][0] == g["ty"][0] or g["ty"][0] == "ptr"):
+                cur = root_job["manual_to"] or []
+                if g["name"] not in [o[0] for o in cur]:
+                    root_job["manual_to"] = cur + [(g["name"], None, g["ty"])]
+                    feats.add("manual:to_claims_ptr_sub")
     jobs.append(root_job)
 
     spec = {"decls": {"src": src_decls, "dst": dst_decls}, "jobs": jobs, "funcs": funcs or [], "mapper": mapper,
@@ -1346,6 +1395,27 @@ def corpus():
         [st("Article", [_f("Headline", B("string")), _f("ID", B("int"))]),
          st("T", [_f("Title", B("string")), _f("Headline", B("string")), _f("ID", B("int")), _f("Body", B("string"))])],
         [_job("Article", "Article"), _job("T", "T")]))
+    # 19. nested pairs whose OTHER direction is taken by a manual method: P1 *Inner -> Inner and Ps []*Inner -> []Inner with a
+    #     manual fromX assigning them (only the ToX branch of makeSubMap runs: its IsPtr decides the nil guards of ToX), and the
+    #     mirror image Q1 Inner <- *Inner with a manual toX
+    res.append(_spec(
+        [inner_s, st("T", [_f("P1", P(N("src", "Inner"))), _f("Ps", ["slice", P(N("src", "Inner"))]), _f("Q1", N("src", "Inner")),
+                           _f("ID", B("int"))])],
+        [inner_d, st("T", [_f("P1", N("dst", "Inner")), _f("Ps", ["slice", N("dst", "Inner")]), _f("Q1", P(N("dst", "Inner"))),
+                           _f("ID", B("int"))])],
+        [_job("Inner", "Inner"),
+         {"src": "T", "dst": "T", "manual_to": [("Q1", None, P(N("dst", "Inner")))],
+          "manual_from": [("P1", None, P(N("src", "Inner"))), ("Ps", None, ["slice", P(N("src", "Inner"))])]}]))
+    # 20. one field name at three embedding depths, declared deepest, shallowest (behind an embedded POINTER), middle (behind
+    #     value embeddings only): Go promotes the shallowest, whose path needs the nil guard
+    res.append(_spec(
+        [st("E3", [_f("X", B("int"))]), st("E2", [_f("E3", N("src", "E3"), emb=True)]), st("E1", [_f("E2", N("src", "E2"), emb=True)]),
+         st("P1", [_f("X", B("int")), _f("Y", B("string"))]),
+         st("M2", [_f("X", B("int"))]), st("M1", [_f("M2", N("src", "M2"), emb=True)]),
+         st("T", [_f("E1", N("src", "E1"), emb=True), _f("P1", P(N("src", "P1")), emb=True), _f("M1", N("src", "M1"), emb=True),
+                  _f("ID", B("int"))])],
+        [st("T", [_f("X", B("int64")), _f("Y", B("string")), _f("ID", B("int"))])],
+        [_job("T", "T")]))
     return res
 
 
